@@ -27,10 +27,10 @@ PROPS = {
 
 
 PROPS['C16'] = dict(
-    technique='CBMC contract proofs with woven loop invariants and ghost index (hex: unbounded round trip; URL: unbounded output-structure and token-decoding contracts); bounded complete round trips for URL/Base64 at constant lengths',
+    technique='CBMC contract proofs with woven loop invariants and ghost index (hex: unbounded round trip; URL: unbounded output-structure and token-decoding contracts; Base64 encoder: unbounded format contract - exact allocation, alphabet, padding); bounded complete round trips for URL/Base64 at constant lengths',
     text='Hex: qhex_encode and qhex_decode are proved for every length (lower-case digits, exact pairs, both digit cases) and composed in one harness into an unbounded round trip decode(encode(x)) == x with exact length. URL: for every length the encoder output is proved to be the concatenation of per-byte encodings, a byte being literal only if URL-safe and otherwise %hh lower case; the decoder is proved token by token (+ to space, %hh either case) for every string; per-byte inverse over all 256 values; whole-string round trips for every string up to 4 (thorough 8) bytes. Base64: RFC 4648 alphabet, padding and round trip for every input of 1..6 (thorough 12) bytes, fully symbolic.',
     design_ref='DESIGN.md section 3 C16',
-    note='Unbounded: hex encode/decode/round trip, URL encoder structure, URL decoder tokens. Bounded stand-ins (labelled, never counted as proved): URL whole-string round trip (<= 4/8 bytes), Base64 format and round trip (<= 6/12 bytes). qparse_queries pair round trip is covered by the bounded parser group under C17/C16 once built; allocation is the CBMC model.',
+    note='Unbounded: hex encode/decode/round trip, URL encoder structure, URL decoder tokens, Base64 encoder output format (length 4*ceil(n/3), standard alphabet, = only as the final padding: two for n%3==1, one for n%3==2). Bounded stand-ins (labelled, never counted as proved): URL whole-string round trip (<= 4/8 bytes), Base64 format and round trip (<= 6/12 bytes). qparse_queries pair round trip is covered by the bounded parser group under C17/C16 once built; allocation is the CBMC model.',
     trusted_base=COMMON_TRUST + ['strdup/strlen in bounded groups are CBMC library models'],
     unchecked=['Base64/URL whole-string round trips beyond the stated lengths', 'query-string assembly is not a library function: only parsing is checked'],
 )
@@ -61,10 +61,10 @@ PROPS['C19'] = dict(
 
 LIST_BOUND = 'every list of exactly LN elements (quick LN 0..3, thorough 0..5), element sizes 1..2 symbolic, arbitrary bytes, every index in [-LN-3, LN+3], every limit 0..LN+2'
 PROPS['C09'] = dict(
-    technique='CBMC bounded contract checks on closed lists: every qlist operation from every list of a constant length, compared with the ideal sequence by walking the real links; queue/stack/grow wrappers',
+    technique='unbounded refusal lemma (list of any length, every int index: out-of-range access/removal/insertion and insertion into a full list are refused with the documented errno, change nothing and touch no element - element pointers are poison); CBMC bounded contract checks on closed lists: every qlist operation from every list of a constant length, compared with the ideal sequence by walking the real links; queue/stack/grow wrappers',
     text='For every doubly linked list of LN elements (built directly, all element sizes/bytes/limits symbolic) each qlist operation is shown to realise exactly the ideal-sequence transition: insertion/access/pop/removal at the front- or back-relative index, refusal (ERANGE/ENOBUFS/EINVAL) without any effect, exact count and byte total, reverse, forward walk, toarray/tostring (trailing-NUL rule), clear, setsize; queue FIFO, stack LIFO and grow concatenation through the real wrappers. Every state satisfying the representation invariant is covered for the stated lengths, so the history quantifier is discharged by induction over operations.',
     design_ref='DESIGN.md section 3 C09',
-    note='Bounded stand-in in list length (<= 3 quick, <= 5 thorough) and element size (<= 2 bytes); unbounded in history by the invariant argument (meta). qlist_debug (stdio) not covered.',
+    note='Unbounded: the refusal paths (group list_refusal). Everything else: bounded stand-in in list length (<= 3 quick, <= 5 thorough) and element size (<= 2 bytes); unbounded in history by the invariant argument (meta). qlist_debug (stdio) not covered.',
     trusted_base=COMMON_TRUST + [PTHREAD_TRUST, 'memcpy on constant-size elements: CBMC library model'],
     unchecked=['lists longer than 5 elements, elements larger than 2 bytes', 'qlist_debug, qqueue/qstack *str/*int convenience wrappers'],
 )
